@@ -143,7 +143,9 @@ let clauses_raw h (impl : string) : (string * bool) list =
                  [ ("work_bound", work_ok alg ops os oe ns ne (int_of_string (get ih "cmps"))) ]
                else [])
             (* index spaces 2^32 - 3 and 2^40 further out give the same calls shifted (c01_raw_shift) *)
-            @ [ ("big_offsets", get_def ih "bigoff_same" "1" = "1") ]
+            @ [ ("big_offsets", get_def ih "bigoff_same" "1" = "1");
+                (* comparisons among items of one side (the hash tables of Patience) stay linear *)
+                ("same_side_work", get_def ih "ss" "1" = "1") ]
             @ (match dlo with
                | Some _ when stack = "none" ->
                    (* after expiry only a small constant multiple of N+M further comparisons *)
